@@ -7,7 +7,10 @@
 // For writes, BeforeWrite(path, off, data) is called right after BeforeOp("write", path),
 // so that a harness can also build the images of a write(2) that was cut short.
 //
-// With both hooks nil the package behaves exactly like package os.
+// FailOp (optional) lets a harness make one of these operations fail without performing it
+// (fault injection: disk full, I/O error).
+//
+// With all hooks nil the package behaves exactly like package os.
 package vos
 
 import (
@@ -26,10 +29,25 @@ var BeforeOp func(op, path string)
 // file offset the data will land at and the data itself.
 var BeforeWrite func(path string, off int64, data []byte)
 
+// FailOp, when set, is consulted after BeforeOp/BeforeWrite and before the operation is
+// performed, for the operations that can fail for lack of space or an I/O error: "write",
+// "write-at", "sync", "ftruncate", "truncate", "open-create", "open-create-trunc",
+// "open-trunc", "rename", "remove". A non-nil result is returned to the caller INSTEAD of
+// performing the operation (nothing is written); nil = proceed. With FailOp nil (the default)
+// nothing changes.
+var FailOp func(op, path string) error
+
 func before(op, path string) {
 	if BeforeOp != nil {
 		BeforeOp(op, path)
 	}
+}
+
+func fail(op, path string) error {
+	if FailOp != nil {
+		return FailOp(op, path)
+	}
+	return nil
 }
 
 // ---- types, constants, errors ----
@@ -143,9 +161,18 @@ func FindProcess(pid int) (*Process, error)         { return os.FindProcess(pid)
 
 func Rename(oldpath, newpath string) error {
 	before("rename", oldpath+" -> "+newpath)
+	if err := fail("rename", oldpath+" -> "+newpath); err != nil {
+		return err
+	}
 	return os.Rename(oldpath, newpath)
 }
-func Remove(name string) error { before("remove", name); return os.Remove(name) }
+func Remove(name string) error {
+	before("remove", name)
+	if err := fail("remove", name); err != nil {
+		return err
+	}
+	return os.Remove(name)
+}
 func RemoveAll(path string) error {
 	before("remove-all", path)
 	return os.RemoveAll(path)
@@ -168,6 +195,9 @@ func Chtimes(name string, a, m time.Time) error {
 }
 func Truncate(name string, size int64) error {
 	before("truncate", name)
+	if err := fail("truncate", name); err != nil {
+		return err
+	}
 	return os.Truncate(name, size)
 }
 func Link(oldname, newname string) error {
@@ -218,13 +248,20 @@ func Create(name string) (*File, error) {
 }
 
 func OpenFile(name string, flag int, perm FileMode) (*File, error) {
+	op := ""
 	switch {
 	case flag&O_TRUNC != 0 && flag&O_CREATE != 0:
-		before("open-create-trunc", name)
+		op = "open-create-trunc"
 	case flag&O_TRUNC != 0:
-		before("open-trunc", name)
+		op = "open-trunc"
 	case flag&O_CREATE != 0:
-		before("open-create", name)
+		op = "open-create"
+	}
+	if op != "" {
+		before(op, name)
+		if err := fail(op, name); err != nil {
+			return nil, err
+		}
 	}
 	f, err := os.OpenFile(name, flag, perm)
 	return wrap(f, flag, err)
@@ -266,6 +303,9 @@ func (f *File) Write(b []byte) (int, error) {
 	if BeforeWrite != nil {
 		BeforeWrite(f.File.Name(), f.writeOffset(), b)
 	}
+	if err := fail("write", f.File.Name()); err != nil {
+		return 0, err
+	}
 	return f.File.Write(b)
 }
 
@@ -275,6 +315,9 @@ func (f *File) WriteAt(b []byte, off int64) (int, error) {
 	before("write-at", f.File.Name())
 	if BeforeWrite != nil {
 		BeforeWrite(f.File.Name(), off, b)
+	}
+	if err := fail("write-at", f.File.Name()); err != nil {
+		return 0, err
 	}
 	return f.File.WriteAt(b, off)
 }
@@ -286,11 +329,17 @@ func (f *File) ReadFrom(r io.Reader) (int64, error) {
 
 func (f *File) Truncate(size int64) error {
 	before("ftruncate", f.File.Name())
+	if err := fail("ftruncate", f.File.Name()); err != nil {
+		return err
+	}
 	return f.File.Truncate(size)
 }
 
 func (f *File) Sync() error {
 	before("sync", f.File.Name())
+	if err := fail("sync", f.File.Name()); err != nil {
+		return err
+	}
 	return f.File.Sync()
 }
 
